@@ -963,6 +963,10 @@ def verdicts(r):
             out.append(("correspondence:linuxnode", "model of look_sysfsnode (Text/LinuxNode.v) disagrees with the memory objects the backend requested: " + l[:600]))
         elif l == "mreqs chain BAD":
             out.append(("memory-requests:chain", "a memory request of the Linux backend breaks the request invariants (NUMA nodeset = {os_index}; MemCache followed by the NUMA node sharing its sets)"))
+        elif l.startswith("xmlkinds "):
+            f = l.split(" ")
+            if len(f) == 3 and f[1] != f[2]:
+                out.append(("xml-reload:cpukinds", "the topology reloaded from its own XML export (same flags and filters) has %s CPU kinds, the original has %s" % (f[2], f[1])))
         elif l.startswith("levels DIFF"):
             out.append(("correspondence:levels", "model of hwloc_connect_levels disagrees with the implementation: " + l[:300]))
         elif l.startswith("check abort"):
@@ -1103,10 +1107,10 @@ class SnapSearch:
             filters = []
         elif len(filters) > 1:
             filters = G.ddmin(filters, lambda fs: test((snap, comps, env, list(fs), flags, removals)))
-        for b in FLAG_POOL:
+        for b in (FLAG_POOL if not env.get("_scenario") else []):      # a scenario's expectation is about its own flags and environment
             if flags & b and test((snap, comps, env, filters, flags & ~b, removals)):
                 flags &= ~b
-        for k in sorted(env):
+        for k in (sorted(env) if not env.get("_scenario") else []):
             if k in ("HWLOC_COMPONENTS", "HWLOC_THISSYSTEM"):
                 continue
             e2 = {a: v for a, v in env.items() if a != k}
@@ -1731,6 +1735,28 @@ def pair_cases(run, pool, snaps):
     return cases
 
 
+def flag_spec_cases(run, snaps):
+    """HWLOC_TOPOLOGY_FLAG_NO_CPUKINDS on every snapshot and dump (every tier): no CPU kind may be registered whatever backend
+    discovers (hwloc_cpukinds_get_nr == 0), and the XML round trip keeps the number of kinds; x86 dumps as full cases (second
+    load, XML reload, other view), Linux snapshots as light ones; the other NO_* flags alone as light loads."""
+    SCENARIOS["flag-no-cpukinds"] = {"kinds_n": 0}
+    cases = []
+    for snap in snaps:
+        comps, env, _, _ = gen_config(run.rng, snap, plain=True)
+        if snap.kind == "x86+linux":
+            comps = "x86,linux,stop"
+        env = {k: v for k, v in env.items() if not k.startswith("_")}
+        env["HWLOC_COMPONENTS"] = comps
+        env.update({"_kinds": "1", "_scenario": "flag-no-cpukinds", "_noheap": "1"})
+        if snap.kind == "linux":
+            env["_light"] = "1"
+        cases.append(("flag-spec", (snap, comps, env, [], 512, [])))
+        if snap.kind != "linux":
+            e2 = {k: v for k, v in env.items() if k not in ("_scenario", "_kinds")}
+            cases.append(("flag-spec", (snap, comps, e2, [], run.rng.choice([128, 256, 128 | 256 | 512]), [])))
+    return cases
+
+
 NONE_TYPES = [1, 2, 3, 5, 6, 7, 8, 9, 10, 11, 12, 13, 15]      # every type that may be filtered out entirely, PU/NUMA/Machine excepted
 
 
@@ -1910,6 +1936,7 @@ def check_snapshots(run, snapexe, drv, replay_case=None):
         labelled += x86_mutation_cases(run, allsnaps)
         labelled += filter_none_cases(run, allsnaps)
         labelled += pair_cases(run, pool, allsnaps)
+        labelled += flag_spec_cases(run, allsnaps)
         run.cov["snapshots_used"] = sorted(s.rel for s in snaps)
         # judge per label so that the evidence shows the distribution
         cases = [c for _, c in labelled]
